@@ -58,9 +58,10 @@ class SubReport:
     """view of a Report that lets one property's check reuse another property's rule module: rule ids `<src>.x` are
     renamed `<dst>.x`, optionally only the rule families matching `only` are kept (the others are evaluated but dropped)"""
 
-    def __init__(self, rep, src, dst, only=None):
+    def __init__(self, rep, src, dst, only=None, key_only=None):
         self.rep, self.src, self.dst = rep, src, dst
         self.only = re.compile(only) if only else None
+        self.key_only = re.compile(key_only) if key_only else None
         self.notes = {}
         self.obs = rep.obs
 
@@ -69,25 +70,28 @@ class SubReport:
             return None
         return self.dst + rule[len(self.src):] if rule.startswith(self.src) else self.dst + "." + rule
 
+    def _keep(self, key):
+        return self.key_only is None or bool(self.key_only.search(str(key)))
+
     def ok(self, rule, key, loc="", detail=""):
         r = self._map(rule)
-        if r:
+        if r and self._keep(key):
             self.rep.ok(r, key, loc, detail)
 
     def bad(self, rule, key, loc="", detail=""):
         r = self._map(rule)
-        if r:
+        if r and self._keep(key):
             self.rep.bad(r, key, loc, detail)
 
     def check(self, rule, key, cond, loc="", detail="", fail_detail=None):
         r = self._map(rule)
-        if r:
+        if r and self._keep(key):
             self.rep.check(r, key, cond, loc, detail, fail_detail)
         return bool(cond)
 
     def floor(self, rule, what, count, floor):
         r = self._map(rule)
-        if r:
+        if r and self._keep(what):
             self.rep.floor(r, what, count, floor)
 
     def note(self, k, v):
